@@ -2,6 +2,7 @@ import MoneroModel.Drv.Util
 import MoneroModel.Drv.C12
 import MoneroModel.Drv.C15
 import MoneroModel.Model.Json
+import MoneroModel.Spec.Decimal
 open Monero Monero.Json
 /-! C19 driver step. JSON texts the library PRINTS travel as plain text (they are ASCII without blanks: serde_json's compact
 form), JSON texts it READS travel as the hex of their UTF-8 bytes.
@@ -49,6 +50,18 @@ def showDe {α} (toJ : α → Json) (fromJ : Json → Option α) (b : Bytes) : S
   | none => "err"
   | some j => match fromJ j with | none => "err" | some y => "ok " ++ text (render (toJ y))
 
+/-- by-the-convention rendering of the documented wrappers, written independently of Model/Json.lean: piconero as a JSON
+integer, monero as the exact 12-decimal string of Spec.Decimal; `null` for an absent option; reading back succeeds iff
+every monero string is within the parsing limit |a| <= 2^63 - 1 -/
+def specAmtText (xmr : Bool) (a : Int) : String :=
+  if xmr then "\"" ++ String.ofList ((Spec.Decimal.specFormat 12 a).map fun b => Char.ofNat b.toNat) ++ "\"" else toString a
+def specAmount (xmr : Bool) (shape : String) (vals : List (Option Int)) : String :=
+  let body := match shape, vals with
+    | "vec", vs => "{\"amounts\":[" ++ ",".intercalate (vs.map fun v => match v with | some a => specAmtText xmr a | none => "null") ++ "]}"
+    | _, [some a] => "{\"amount\":" ++ specAmtText xmr a ++ "}"
+    | _, _ => "{\"amount\":null}"
+  let ok := vals.all fun v => match v with | some a => !xmr || decide (-(2^63 - 1 : Int) ≤ a ∧ a ≤ 2^63 - 1) | none => true
+  s!"{body} rt={if ok then "eq" else "err"}"
 def encOfStr : String → Option AmtEnc | "as_pico" => some .pico | "as_xmr" => some .xmr | _ => none
 def inRange (signed : Bool) (a : Int) : Bool :=
   if signed then decide (-(2^63 : Int) ≤ a ∧ a < 2^63) else decide (0 ≤ a ∧ a < 2^64)
@@ -118,16 +131,16 @@ def stepC19 : Step := fun toks =>
     | "plain", [a] =>
       let a ← a.toInt?
       if !inRange signed a then none else
-      pure (withRt a (hasAmountJ signed e) (hasAmountFromJson signed e), "-")
-    | "opt", ["none"] => pure (withRt none (hasOptAmountJ signed e) (hasOptAmountFromJson signed e), "-")
+      pure (withRt a (hasAmountJ signed e) (hasAmountFromJson signed e), specAmount (enc == "as_xmr") "plain" [some a])
+    | "opt", ["none"] => pure (withRt none (hasOptAmountJ signed e) (hasOptAmountFromJson signed e), specAmount (enc == "as_xmr") "opt" [none])
     | "opt", [a] =>
       let a ← a.toInt?
       if !inRange signed a then none else
-      pure (withRt (some a) (hasOptAmountJ signed e) (hasOptAmountFromJson signed e), "-")
+      pure (withRt (some a) (hasOptAmountJ signed e) (hasOptAmountFromJson signed e), specAmount (enc == "as_xmr") "opt" [some a])
     | "vec", vs =>
       let vs ← vs.mapM fun (v : String) => v.toInt?
       if !vs.all (inRange signed) then none else
-      pure (withRt vs (hasAmountsJ signed e) (hasAmountsFromJson signed e), "-")
+      pure (withRt vs (hasAmountsJ signed e) (hasAmountsFromJson signed e), specAmount (enc == "as_xmr") "vec" (vs.map some))
     | _, _ => none
   | ["c19_amount_de", enc, shape, ty, h] => do
     let e ← encOfStr enc; let signed ← signedOfStr ty
